@@ -30,16 +30,16 @@ var c23limits = [5][2]int{{2, 2}, {1, 1}, {2, 1}, {3, 2}, {3, 3}}
 // Add get increasing ranks (arrival order); all items given back by one FinishStreaming call share one rank that is
 // below every rank handed out before (the property does not order given-back items among themselves).
 type c23model struct {
-	m       *Mempool[*c23Item]
-	ctx     context.Context
-	nitems  int
-	maxSize int
-	maxSp   int
-	items   [c23K]*c23Item
-	used    int // items 0..used-1 have been named by an operation (first-use order: items are interchangeable)
-	held    [c23K]bool
-	rank    [c23K]int
-	arrival int
+	m        *Mempool[*c23Item]
+	ctx      context.Context
+	nitems   int
+	maxSize  int
+	maxSp    int
+	items    [c23K]*c23Item
+	used     int // items 0..used-1 have been named by an operation (first-use order: items are interchangeable)
+	held     [c23K]bool
+	rank     [c23K]int
+	arrival  int
 	giveback int
 	// streaming state
 	streaming bool
